@@ -60,7 +60,14 @@ pub fn worker_main() {
                 let focus = cmd["focus"].as_str().unwrap_or("");
                 let seed = cmd["seed"].as_u64().unwrap_or(0);
                 let case = gen_case(sim, seed, focus);
-                let result = exec_case(&case, &want);
+                let mut result = exec_case(&case, &want);
+                let case = match result.get("case_override") {
+                    Some(c) if !c.is_null() => c.clone(),
+                    _ => case,
+                };
+                if let Some(o) = result.as_object_mut() {
+                    o.remove("case_override");
+                }
                 let has_viol = result["violations"].as_array().map(|a| !a.is_empty()).unwrap_or(false);
                 let want_case = cmd["want_case"].as_bool().unwrap_or(false);
                 let mut ans = json!({"done": id, "seed": seed, "result": result});
